@@ -39,6 +39,16 @@ CountHdr(r, n, v) == Cardinality({i \in 1..Len(r.headers) : r.headers[i][1] = n 
 ServerFields == {"date", "server", "via", "connection", "content-length", "transfer-encoding"}
 Lower(n) == n   \* header names are compared through the harness-lowered copy
 
+(* Did the failure strike before any output?  Through the iterable the head   *)
+(* goes out with the first NON-EMPTY chunk; through the write() callable with *)
+(* the first call whatever its size; close() runs after the last chunk.       *)
+FailBeforeOutput(sc) ==
+  CASE sc.fail \in {"call", "start_response"} -> TRUE
+    [] sc.fail = "iter"  -> \A j \in 1..Min2(sc.fail_k, Len(sc.chunks)) : sc.chunks[j] = 0
+    [] sc.fail = "write" -> sc.fail_k = 0
+    [] sc.fail = "close" -> IF sc.use_write THEN Len(sc.chunks) = 0 ELSE \A j \in 1..Len(sc.chunks) : sc.chunks[j] = 0
+    [] OTHER -> FALSE
+
 (* ---------------------------------------------------------------- C03 *)
 C03(e) ==
   LET o == e.obs
@@ -46,7 +56,10 @@ C03(e) ==
       ok == e.script.fail = "none" /\ e.disc < 0
       r1 == F[1]
       nextServed == Len(F) >= 2 /\ F[2].complete /\ F[2].status = 200
-  IN IF ~ok THEN {}
+  IN IF ~ok THEN
+        (* a failure after the head was sent: the response can no longer be delimited as announced *)
+        (IF e.disc < 0 /\ e.script.fail # "none" /\ ~FailBeforeOutput(e.script)
+           THEN Cl(o.closed /\ Len(F) <= 1, "P03_failure_after_the_head_closes_the_connection") ELSE {})
      ELSE Cl(o.wire_error = "" /\ o.garbage = 0, "P03_wire_is_a_sequence_of_complete_responses")
      \cup Cl(Len(F) >= 1, "P03_every_request_gets_a_response")
      \cup (IF Len(F) = 0 THEN {} ELSE
@@ -109,16 +122,6 @@ C08(e) ==
      \cup Cl(refused \/ mustRefuse \/ Len(lines) = 0 \/ o.status_line = e.strs.status, "P08_status_line_carries_the_application_status")
 
 (* ---------------------------------------------------------------- C09 *)
-(* Did the failure strike before any output?  Through the iterable the head   *)
-(* goes out with the first NON-EMPTY chunk; through the write() callable with *)
-(* the first call whatever its size; close() runs after the last chunk.       *)
-FailBeforeOutput(sc) ==
-  CASE sc.fail \in {"call", "start_response"} -> TRUE
-    [] sc.fail = "iter"  -> \A j \in 1..Min2(sc.fail_k, Len(sc.chunks)) : sc.chunks[j] = 0
-    [] sc.fail = "write" -> sc.fail_k = 0
-    [] sc.fail = "close" -> IF sc.use_write THEN Len(sc.chunks) = 0 ELSE \A j \in 1..Len(sc.chunks) : sc.chunks[j] = 0
-    [] OTHER -> FALSE
-
 C09(e) ==
   LET o == e.obs
       F == Finals(o.responses)
